@@ -315,10 +315,13 @@ func (g *c03gen) value(t reflect.Type, idx int) (v c03v, ok bool) {
 			}
 			return mk(tm, c03VTime(tm), !tm.IsZero())
 		case c03AddrObjType:
-			if idx > 1 {
+			if idx > 4 {
 				return v, false
 			}
 			o := c03AddrObj{int64(r.Intn(4)), g.nanF(20)}
+			if idx >= 0 { // pairwise distinct contents, so that a slice of them shows which element was delivered
+				o.C = int64(idx)
+			}
 			if idx == 1 {
 				o.F = math.NaN()
 			}
@@ -359,7 +362,8 @@ func (g *c03gen) value(t reflect.Type, idx int) (v c03v, ok bool) {
 			}
 			return c03v{rv: reflect.ValueOf(b), sx: c03VBytes(b), nt: len(b) > 0}, true
 		}
-		// nil, empty, singleton, every boundary element at once, an aliasing sub-slice, random
+		// nil, empty, singleton, every boundary element at once, an aliasing sub-slice (a window into the
+		// middle of a larger backing array), every boundary element twice behind a prefix window, random
 		var elems []c03v
 		switch {
 		case idx == 0:
@@ -368,18 +372,21 @@ func (g *c03gen) value(t reflect.Type, idx int) (v c03v, ok bool) {
 		case idx == 1:
 			z := reflect.MakeSlice(t, 0, 0)
 			return c03v{rv: z, sx: c03VSlice(z, nil), nt: false}, true
-		case idx == 2 || idx == 3 || idx == 4:
+		case idx >= 2 && idx <= 5:
 			for i := 0; ; i++ {
 				e, ok := g.value(t.Elem(), i)
 				if !ok || i > 40 {
 					break
 				}
 				elems = append(elems, e)
+				if idx == 5 {
+					elems = append(elems, e)
+				}
 			}
 			if idx == 2 && len(elems) > 1 {
 				elems = elems[len(elems)-1:]
 			}
-		case idx > 4:
+		case idx > 5:
 			return v, false
 		default:
 			n := r.Intn(6)
@@ -397,6 +404,9 @@ func (g *c03gen) value(t reflect.Type, idx int) (v c03v, ok bool) {
 		lo, hi := 0, len(elems)
 		if idx == 4 && len(elems) > 2 { // aliasing: a window into a larger backing array
 			lo, hi = 1, len(elems)-1
+		}
+		if idx == 5 && len(elems) > 1 { // a prefix of a larger backing array: same first address, other identity
+			hi = len(elems) - 1
 		}
 		s = s.Slice(lo, hi)
 		sxs := make([]SX, 0, hi-lo)
@@ -594,6 +604,7 @@ func c03AddTo(f zapcore.Field) (calls SX, panicked string) {
 	}()
 	rec := &c03rec{}
 	f.AddTo(rec)
+	rec.finish()
 	return c03VCalls(rec.calls), ""
 }
 
@@ -669,7 +680,13 @@ func c03(c *Ctx) {
 			c.Emit(in, L(Z(-1)), meta)
 			return
 		}
+		// elements delivered by address are identified against the slice the caller passed
+		c03ElemBase = reflect.Value{}
+		if v.rv.IsValid() && v.rv.Kind() == reflect.Slice && v.rv.Type().Elem() == c03AddrObjType {
+			c03ElemBase = v.rv
+		}
 		calls, p2 := c03AddTo(f)
+		c03ElemBase = reflect.Value{}
 		if p2 != "" {
 			c.Emit(in, L(Z(-1)), meta)
 			return
